@@ -23,6 +23,7 @@ func (c *Response[R]) Send(res R) {
 	c.mx.Lock()
 	c.res = res
 	c.mx.Unlock()
+	vhook("resp.stored")
 	// Send to channel for immediate consumption
 	c.ch <- res
 }
@@ -51,6 +52,7 @@ func (c *Response[R]) Drain() {
 }
 
 func (rc *Response[R]) Close() error {
+	vhook("resp.close")
 	close(rc.ch)
 	return nil
 }
